@@ -740,7 +740,19 @@ def build_all(fieldkeys_small, fieldkeys_real, have, extra_thr=None):
     jobs += [("real", fk, []) for fk in fieldkeys_real]
     if extra_thr:
         jobs += [(extra_thr[0], fk, extra_thr[1]) for fk in fieldkeys_small]
-    vf.build_repo_lib()       # once, before the parallel part
+    # the library is built once, before the parallel part; the lock keeps the threads of this process from racing on
+    # vf.build_repo_lib's per-process temporary directory should /repo change between the two calls
+    import threading
+    lock = threading.Lock()
+    if not getattr(vf.build_repo_lib, "_c08_locked", False):
+        orig = vf.build_repo_lib
+
+        def locked(*a, **k):
+            with lock:
+                return orig(*a, **k)
+        locked._c08_locked = True
+        vf.build_repo_lib = locked
+    vf.build_repo_lib()
 
     def one(job):
         tag, fk, flags = job
